@@ -107,7 +107,7 @@ theorem val_ofFn [Inhabited α] (shape : List Nat) (f : List Nat → α) (idx : 
   simp [val, get_ofFn shape f idx h]
 
 /-- a well-formed tensor is determined by its shape and its values at valid indices -/
-theorem ext (s t : Tensor α) (hs : s.WF) (ht : t.WF) (hshape : s.shape = t.shape)
+theorem ext_get (s t : Tensor α) (hs : s.WF) (ht : t.WF) (hshape : s.shape = t.shape)
     (h : ∀ idx, valid s.shape idx = true → s.get idx = t.get idx) : s = t := by
   cases s with
   | mk ss sd =>
@@ -276,7 +276,7 @@ theorem padAxis_wf [Inhabited α] (ax l r : Nat) (mode : PadMode α) (t : Tensor
 theorem get_padAxis [Inhabited α] (ax l r : Nat) (mode : PadMode α) (t : Tensor α) (idx : List Nat)
     (h : valid (t.padAxis ax l r mode).shape idx = true) :
     (t.padAxis ax l r mode).get idx
-      = some (PdsVerif.Model.ext l r mode (t.lane ax idx) (((idx.getD ax 0 : Nat) : Int) - (l : Int))) := by
+      = some (Tensor.ext l r mode (t.lane ax idx) (((idx.getD ax 0 : Nat) : Int) - (l : Int))) := by
   unfold padAxis at h ⊢
   exact get_ofFn _ _ _ h
 
